@@ -134,6 +134,9 @@ def make_judges(ctx):
             return
         ex = A.exact_op(ai.op, vx, vy)
         exf, shape = A.flat(ex)
+        if A.beyond_double(ai, exf, vx, vy):
+            ctx.skip('arith:value (repr) method on values beyond double precision (outside the quantifier n_word<=12)')
+            return
         if tuple(res.shape) != tuple(shape):
             ctx.violation('shape', 'result shape %r, expected %r' % (res.shape, shape), ev)
             return
